@@ -397,3 +397,75 @@ def run(ctx):
     c2 = [c for c in own_nodes(f.node) if isinstance(c, ast.Call) and norm(c.func) == "self._storage.create_new_trial"]
     ok = bool(c2) and kwarg(c2[0], "template_trial", 1) is not None and norm(kwarg(c2[0], "template_trial", 1)) == "trial"
     ctx.check(ok, "R09.4", f.short, "add_trial-uses-template", message="add_trial does not create the trial from the given template", how="create_new_trial(study_id, template_trial=trial)")
+
+    # ------------------------------------------------------------ R09.6 / R09.7 representation details that differ between backends
+    ctx.rule("R09.6", "samplers and pruners never select from a trial's intermediate_values by dict position (first/last item, reversed, "
+             "popitem, list(...)[k]): the in-memory and journal backends keep report order, the RDB returns the steps sorted")
+    POSITIONAL_FUNCS = {"reversed", "iter"}
+    n_iv = 0
+    for f in p.iter_funcs(("optuna.samplers", "optuna.pruners")):
+        pm = parent_map(f.node)
+        for x in own_nodes(f.node):
+            if not (isinstance(x, ast.Attribute) and x.attr == "intermediate_values" and isinstance(x.ctx, ast.Load)):
+                continue
+            n_iv += 1
+            # climb: .items()/.values()/.keys() views keep the dict's order
+            cur = x
+            par = pm.get(id(cur))
+            if isinstance(par, ast.Attribute) and par.value is cur and par.attr in ("items", "values", "keys"):
+                call = pm.get(id(par))
+                if isinstance(call, ast.Call) and call.func is par:
+                    cur, par = call, pm.get(id(call))
+            bad = None
+            if isinstance(par, ast.Attribute) and par.value is cur and par.attr == "popitem":
+                bad = "popitem()"
+            elif isinstance(par, ast.Call) and cur in par.args:
+                fn = (dotted(par.func) or "").split(".")[-1]
+                if fn in POSITIONAL_FUNCS:
+                    outer = pm.get(id(par))
+                    # iter(d) only matters when consumed by next(); reversed(d) is order-dependent by itself
+                    if fn == "reversed" or (isinstance(outer, ast.Call) and (dotted(outer.func) or "") == "next"):
+                        bad = f"{fn}(...)"
+                elif fn == "next":
+                    bad = "next(...)"
+                elif fn in ("list", "tuple"):
+                    outer = pm.get(id(par))
+                    if isinstance(outer, ast.Subscript) and outer.value is par:
+                        bad = f"{fn}(...)[{norm(outer.slice)}]"
+            elif isinstance(par, ast.Starred):
+                outer = pm.get(id(par))
+                gp = pm.get(id(outer)) if outer is not None else None
+                if isinstance(gp, ast.Subscript) and gp.value is outer:
+                    bad = "[*...][k]"
+            ctx.check(bad is None, "R09.6", f.short, f"intermediate-values-by-position:{norm(par)[:40] if par is not None else ''}",
+                      message=f"{f.name} picks an entry of intermediate_values by its position in the dict ({bad}): which report that is depends on the storage "
+                              f"backend (report order in memory / journal, step order from the RDB), so a seeded run differs between backends",
+                      how="max()/min()/sorted()/[step]/len()/iteration into an order-free reduction", where=where(f, x))
+    ctx.floor("R09.6", "intermediate_values_reads", n_iv, 16)
+
+    ctx.rule("R09.7", "samplers and pruners do not compare values by object identity (`is`): only the in-memory backend hands the same objects "
+             "back, every other backend returns decoded copies (None / True / False / Enum members excepted)")
+    n_is = 0
+    for f in p.iter_funcs(("optuna.samplers", "optuna.pruners")):
+        for x in own_nodes(f.node):
+            if isinstance(x, ast.Compare) and any(isinstance(o, (ast.Is, ast.IsNot)) for o in x.ops):
+                n_is += 1
+                operands = [x.left] + list(x.comparators)
+
+                def singleton(e):
+                    if isinstance(e, ast.Constant) and (e.value is None or isinstance(e.value, bool) or e.value is Ellipsis):
+                        return True
+                    if isinstance(e, ast.Attribute) and e.attr.isupper():
+                        return True  # Enum member / module constant
+                    if isinstance(e, ast.Name) and (e.id.isupper() or e.id in ("NotImplemented",)):
+                        return True
+                    return False
+                ok = any(singleton(e) for e in operands)
+                # identity of infrastructure objects (self, study, sampler) is not a value comparison
+                infra = all(isinstance(e, (ast.Name, ast.Attribute)) and (dotted(e) or "").split(".")[-1].lstrip("_") in
+                            ("self", "study", "sampler", "pruner", "storage", "rng", "cls") for e in operands)
+                ctx.check(ok or infra, "R09.7", f.short, f"identity-comparison:{norm(x)[:40]}",
+                          message=f"{f.name} compares `{norm(x)[:60]}` by identity: grid values, parameters and attributes read back from RDB / journal / gRPC storages are "
+                                  f"decoded copies, so the answer differs from the in-memory backend (a NaN grid value is never recognised as visited)",
+                          how="one operand is None / True / False / an Enum member, or both are infrastructure objects", where=where(f, x))
+    ctx.floor("R09.7", "identity_comparisons", n_is, 114)
